@@ -2,9 +2,9 @@
 Parse-level places that read the two preferences (C12):
   * `Options.__init__` (options.py:151-155): no_data_loss ⇒ addition=False unless the caller chose one
     (with fix C12-ndl-addition-default: also when `addition` is left at its default),
-  * the tuple prefix parser `_parse_tuple_args` (rule.py:1891-1899): excess items,
-  * unknown keys of a data class / function (`parse_addition`, base.py:390-399),
-  * list / tuple input of a data class (`transform_dataclass`, cls.py:596-606).
+  * the tuple prefix parser `_parse_tuple_args` (rule.py:1938-1946): excess items,
+  * unknown keys of a data class / function (`parse_addition`, base.py:411-431),
+  * list / tuple input of a data class (`transform_dataclass`, cls.py:627-637).
 -/
 import Utv.Model.Conv
 namespace Utv.C12M
@@ -27,23 +27,30 @@ def normAddition (ndl : Bool) (a : Addition) : Addition :=
      | .unset => .none
      | a => a)
 
-/-- base.py:390-399 `parse_addition` for an unknown key: rejected (ExceedError), dropped, or kept -/
+/-- base.py:411-431 `parse_addition` for an unknown key: rejected (ExceedError), dropped, or kept -/
 inductive KeyFate where
   | rejected | dropped | kept
   deriving DecidableEq, Repr
 
-def unknownKey (a : Addition) : KeyFate :=
+def unknownKey (excluded : Bool) (a : Addition) : KeyFate :=
+  if excluded then
+    -- `key in self.exclude_vars` (base.py:412-418, func.py:605-610; with fix C12-excluded-key-under-ndl): a private /
+    -- ClassVar name is never carried as an addition; where unknown keys are refused it is refused too
+    (match a with
+     | .no => .rejected
+     | _ => .dropped)
+  else
   match a with
   | .no => .rejected
   | .yes => .kept
   | _ => .dropped
 
-/-- rule.py:1896-1899: the indices handed to `context.handle_error(TupleExceedError)`; with the default
+/-- rule.py:1942-1945: the indices handed to `context.handle_error(TupleExceedError)`; with the default
 (fail-fast) context the first one raises -/
 def tupleExcess (a : Addition) (ndl : Bool) (nargs nvals : Nat) : List Nat :=
   if nvals > nargs && (a == .no || ndl) then List.range' nargs (nvals - nargs) else []
 
-/-- cls.py:596-606: what `transform_dataclass` hands on for a list / tuple input (the data-class instance
+/-- cls.py:627-637: what `transform_dataclass` hands on for a list / tuple input (the data-class instance
 shortcuts are outside `V`) -/
 def dataclassUnwrap (f : Flags) (v : V) : Outcome V :=
   match v with
@@ -55,16 +62,22 @@ def dataclassUnwrap (f : Flags) (v : V) : Outcome V :=
     else .ok v
   | _ => .ok v
 
-/-- `transform_dataclass` followed by the input stage of `init_dataclass` (cls.py:563-574): the mapping that
+/-- `transform_dataclass` followed by the input stage of `init_dataclass` (cls.py:590-615): the mapping that
 reaches `cls.__init__(**data)`.  `fr` are the preferences of the running transformer (they decide the
 unwrapping), `fc` those of the data class's own options (they decide how a non-mapping becomes a dict). -/
+def keywordData (d : V) : Outcome V :=
+  -- cls.py:571-587 `keyword_data` (cast_keyword_str off): the mapping becomes keyword arguments, keys must be str
+  match d with
+  | .dict _ kvs => if kvs.all (fun kv => isInst kv.1 .str) then .ok d else .perr .typeError
+  | _ => .ok d
+
 def dataclassInput (P : Prims) (E : Env) (fr fc : Flags) (v : V) : Outcome V :=
   dataclassUnwrap fr v >>= fun d =>
-    if isInst d .dict then .ok d
-    else if fc.nec then .perr .typeError
-    else toDict P E fc 0 d
+    (if isInst d .dict then .ok d
+     else if fc.nec then .perr .typeError
+     else toDict P E fc 0 d) >>= keywordData
 
-/-! ### `transform_dataclass` with instances of the class among the input (cls.py:615-630) -/
+/-! ### `transform_dataclass` with instances of the class among the input (cls.py:627-647) -/
 
 /-- what `transform_dataclass` does with its input: return an object that already is an instance, or hand a
 value to `init_dataclass` -/
@@ -73,7 +86,7 @@ inductive DcResult where
   | init (v : V)
   deriving Repr
 
-/-- cls.py:615-630.  `isExact d` = `type(d) == cls`, `isInst d` = `isinstance(d, cls)`, `allowSub` =
+/-- cls.py:627-647.  `isExact d` = `type(d) == cls`, `isInst d` = `isinstance(d, cls)`, `allowSub` =
 `Options.allow_subclasses` (of the running transformer).  The length check under no_data_loss comes
 *before* the look at the first item: several items never collapse, whatever they are. -/
 def dataclassStep (isExact isInst : V → Bool) (allowSub : Bool) (f : Flags) (v : V) : Outcome DcResult :=
@@ -258,5 +271,22 @@ exact-type shortcut only applies to plain members -/
 def unionParseTy (P : Prims) (E : Env) (f : Flags) (ts : List Ty) (v : V) : Outcome V :=
   unionStages (ts.any fun t => match t with | .plain t' => typeEq v t' | _ => false)
     (fun g => passFresh (ts.map fun t => (t.isRule, parseTy P E g t v))) f v
+
+/-! ### preferences that reach a class by inheritance / from an overriding outer class (hand models of
+`BaseParser.apply_for` base.py:41-64 and `Options.make_context` options.py:249-258; tied by the `inherit` cases only) -/
+
+/-- `getattr(cls, '__options__', None)` along the MRO (the class itself first): the nearest declaration -/
+def declaredFlags : List (Option Flags) → Flags
+  | [] => ⟨false, false⟩
+  | some f :: _ => f
+  | none :: rest => declaredFlags rest
+
+/-- `Options.make_context(context=outer)`: the outer context's options replace the class's own only when the
+outer ones say `override` and the own ones do not -/
+def contextFlags (own : Flags × Bool) (outer : Option (Flags × Bool)) : Flags :=
+  match outer with
+  | some (fo, true) => if own.2 then own.1 else fo
+  | _ => own.1
+
 
 end Utv.C12M
